@@ -4,11 +4,15 @@ import (
 	"crypto/sha256"
 	"fmt"
 	"math/big"
+	"strings"
 
 	core "github.com/osmosis-labs/osmosis/v31/zzverif/res04"
 )
 
+// allSeen: distinct states / lattice points in which an oracle was evaluated (dumped for union counting);
+// visitedSeen: lattice points visited at all (dedup of coinciding points).
 var allSeen = core.NewSeen()
+var visitedSeen = core.NewSeen()
 
 var exitFeeLattice = []string{"0", "0.01"}
 
@@ -35,8 +39,9 @@ func thirdAssets(thorough bool) []thirdAsset {
 
 // probeSink records violations instead of reporting them; everything else goes to inner (if any).
 type probeSink struct {
-	inner sink
-	viols []probeViol
+	inner   sink
+	viols   []probeViol
+	skipped bool // the point was not evaluable (zero amount, pool constructor refused the configuration)
 }
 
 type probeViol struct {
@@ -52,6 +57,9 @@ func (p *probeSink) vac(name string) {
 	}
 }
 func (p *probeSink) reject(class string) {
+	if strings.HasPrefix(class, "skip:") || strings.HasPrefix(class, "newpool:") {
+		p.skipped = true
+	}
 	if p.inner != nil {
 		p.inner.reject(class)
 	}
@@ -120,12 +128,17 @@ func shrinkCase(c Case, assertion string) shrunkCase {
 func runCase(sk *collector, c Case) {
 	c.Part = 1
 	h := sha256.Sum256([]byte(c.sig()))
-	if !allSeen.Add(h) {
+	if !visitedSeen.Add(h) {
 		return
 	}
-	sk.r.States++
 	ps := &probeSink{inner: sk}
 	evalCase(ps, c)
+	sk.r.Extra["sum_lattice_points_visited"] = asInt(sk.r.Extra["sum_lattice_points_visited"]) + 1
+	if ps.skipped {
+		return
+	}
+	allSeen.Add(h)
+	sk.r.States++
 	for _, v := range ps.viols {
 		sk.r.Extra["sum_violating_points_"+v.assertion] = asInt(sk.r.Extra["sum_violating_points_"+v.assertion]) + 1
 		m := shrinkCase(c, v.assertion)
